@@ -2,6 +2,7 @@ package main
 
 import (
 	"fmt"
+	"go/token"
 	"go/types"
 
 	"golang.org/x/tools/go/ssa"
@@ -61,6 +62,10 @@ func runC16(p *Program, r *Report) {
 		}
 	}
 	r.Floor("R16a", "functions in the closure of the exported position arithmetic", nf, 15)
+
+	r.Rule("R16c", "SHIFT-WIDTH: in the closure of the exported position arithmetic a left shift by a variable amount (a row, a height) is computed in a 64-bit type")
+	r.Rule("R16d", "NO-SIGNED-LEAFCOUNT-ARITHMETIC: a leaf count converted to a signed integer type is only compared or passed on, never an operand of arithmetic")
+	checkShiftAndCountWidth(p, r, "R16c", "R16d", reach, 5)
 
 	// R16b
 	pp := p.Func("ProofPositions")
@@ -145,4 +150,157 @@ func init() {
 			"contents of both results of ProofPositions. A wrong shift, mask or off-by-one is invisible to these rules.",
 		Rules: []RuleDef{{ID: "R16", Statement: "integer-only position arithmetic; computable list follows parent steps", Run: runC16}},
 	})
+}
+
+// ---------------------------------------------------------------------------
+// R16c SHIFT-WIDTH and R16d NO-SIGNED-LEAFCOUNT-ARITHMETIC.
+//
+// The property ranges over forests of up to 63 rows and over all leaf counts.
+// R16c: a left shift by a variable amount (a row, a height) is computed in a
+// 64-bit type - "1 << row" in a narrower type silently yields 0 from row 32 (or
+// 8, 16) on. R16d: a leaf count converted to a signed integer is only compared,
+// never an operand of arithmetic - int(numLeaves) is negative from 2^63 on and
+// 2*int(numLeaves) overflows from 2^62 on.
+
+// leafCountParams: parameters that receive a leaf count, found by role: the
+// parameter of TreeRows and of numRoots, and every parameter passed on to one.
+func leafCountParams(p *Program) map[*ssa.Parameter]bool {
+	set := map[*ssa.Parameter]bool{}
+	for _, n := range []string{"TreeRows", "numRoots"} {
+		if f := p.Func(n); f != nil && len(f.Params) == 1 {
+			set[f.Params[0]] = true
+		}
+	}
+	var strip func(v ssa.Value, d int) ssa.Value
+	strip = func(v ssa.Value, d int) ssa.Value {
+		if d > 6 {
+			return v
+		}
+		switch x := v.(type) {
+		case *ssa.Convert:
+			return strip(x.X, d+1)
+		case *ssa.ChangeType:
+			return strip(x.X, d+1)
+		case *ssa.BinOp:
+			if x.Op == token.ADD || x.Op == token.SUB {
+				return strip(x.X, d+1)
+			}
+		}
+		return v
+	}
+	for changed := true; changed; {
+		changed = false
+		for _, fn := range p.Funcs {
+			for _, b := range fn.Blocks {
+				for _, in := range b.Instrs {
+					c, ok := in.(*ssa.Call)
+					if !ok {
+						continue
+					}
+					callee := c.Common().StaticCallee()
+					if callee == nil || callee.Pkg != p.SSA || len(callee.Params) != len(c.Common().Args) {
+						continue
+					}
+					for i, a := range c.Common().Args {
+						if !set[callee.Params[i]] {
+							continue
+						}
+						if par, ok := strip(a, 0).(*ssa.Parameter); ok && isUint64(par.Type()) && !set[par] {
+							set[par] = true
+							changed = true
+						}
+					}
+				}
+			}
+		}
+	}
+	return set
+}
+
+// isLeafCountValue: a leaf-count parameter or a load of a field called NumLeaves.
+func isLeafCountValue(v ssa.Value, lc map[*ssa.Parameter]bool) bool {
+	switch x := v.(type) {
+	case *ssa.Parameter:
+		return lc[x]
+	case *ssa.UnOp:
+		if fa, ok := x.X.(*ssa.FieldAddr); ok && x.Op == token.MUL {
+			if st, ok := deref(fa.X.Type()).Underlying().(*types.Struct); ok && st.Field(fa.Field).Name() == "NumLeaves" {
+				return true
+			}
+		}
+	case *ssa.Field:
+		if st, ok := x.X.Type().Underlying().(*types.Struct); ok && st.Field(x.Field).Name() == "NumLeaves" {
+			return true
+		}
+	}
+	return false
+}
+
+func checkShiftAndCountWidth(p *Program, r *Report, ruleShift, ruleCount string, reach map[*ssa.Function]bool, floorShift int) {
+	lc := leafCountParams(p)
+	nShift, nConv := 0, 0
+	for _, fn := range sortedFuncs(p, reach) {
+		name := p.FuncName(fn)
+		si, ci := 0, 0
+		for _, b := range fn.Blocks {
+			for _, in := range b.Instrs {
+				switch x := in.(type) {
+				case *ssa.BinOp:
+					if ruleShift != "" && x.Op == token.SHL {
+						if _, isConst := x.Y.(*ssa.Const); isConst {
+							continue
+						}
+						bt, ok := x.Type().Underlying().(*types.Basic)
+						if !ok {
+							continue
+						}
+						si++
+						nShift++
+						key := fmt.Sprintf("%s/shl#%d/width", name, si)
+						if basicBits(bt) < 64 {
+							r.Violate(ruleShift, key, posOf(p, x), fmt.Sprintf("a left shift by a variable amount is computed in %s (%d bits): the forest has up to 63 rows, and from shift count %d on the result is silently 0 - rows, positions or bits above that are lost", bt.Name(), basicBits(bt), basicBits(bt)), "in "+name)
+						} else {
+							r.Discharge(ruleShift, key, posOf(p, x), "variable left shift computed in a 64-bit type", true)
+						}
+					}
+				case *ssa.Convert:
+					if ruleCount == "" {
+						continue
+					}
+					bt, ok := x.Type().Underlying().(*types.Basic)
+					if !ok || bt.Info()&types.IsInteger == 0 || bt.Info()&types.IsUnsigned != 0 {
+						continue
+					}
+					if !dependsOn(x.X, func(v ssa.Value) bool { return isLeafCountValue(v, lc) }) {
+						continue
+					}
+					ci++
+					nConv++
+					key := fmt.Sprintf("%s/signed-leaf-count#%d", name, ci)
+					var bad ssa.Instruction
+					for _, ref := range *x.Referrers() {
+						if bo, ok := ref.(*ssa.BinOp); ok {
+							switch bo.Op {
+							case token.ADD, token.SUB, token.MUL, token.QUO, token.SHL:
+								if bad == nil {
+									bad = bo
+								}
+							}
+						}
+					}
+					if bad != nil {
+						r.Violate(ruleCount, key, posOf(p, bad), fmt.Sprintf("a leaf count converted to %s (signed) is an operand of arithmetic: the property ranges over all leaf counts, int(n) is negative from 2^63 on and a product or sum of it overflows earlier (2*int(n) from 2^62 on) - a size, bound or index computed from it is then negative", bt.Name()), "in "+name)
+					} else {
+						r.Discharge(ruleCount, key, posOf(p, x), "the signed copy of the leaf count is only compared or passed on, not an operand of arithmetic", true)
+					}
+				}
+			}
+		}
+	}
+	if ruleShift != "" {
+		r.Floor(ruleShift, "left shifts by a variable amount in the closure", nShift, floorShift)
+	}
+	if ruleCount != "" {
+		r.Stats["signed_leafcount_conversions"] = nConv
+	}
 }
